@@ -276,3 +276,89 @@ func VerifC17_SecretsAreMasked() {
 	s4, e4 := none.MarshalYAML()
 	vfAssert("nil-secret-url-marshals-nothing", e4 == nil && s4 == nil)
 }
+
+// VerifC17_GlobalCredentials: the global section with every combination of the
+// credential settings that come as a value or as a file (Slack API URL and app token,
+// OpsGenie, VictorOps, Telegram, SMTP password and secret, WeChat), on top of a minimal
+// valid configuration: the configuration validator never panics, and whenever it
+// accepts, no credential is given both as a value and as a file, and the Slack app
+// token is not combined with a different Slack API URL.
+//
+//vf:quick unwind=24 decisions=400 paths=600000
+//vf:thorough unwind=24 decisions=600 paths=6000000
+//vf:expect reach=accepted reach=rejected
+func VerifC17_GlobalCredentials() {
+	g := DefaultGlobalConfig()
+	u, err := url.Parse("https://hooks.example/abc")
+	if err != nil {
+		panic(err)
+	}
+	val, file := func(n string) bool { return vfBool(n + ".value") }, func(n string) bool { return vfBool(n + ".file") }
+	slackURL, slackURLFile := val("slack_api_url"), file("slack_api_url")
+	if slackURL {
+		g.SlackAPIURL = &amcommoncfg.SecretURL{URL: u}
+	}
+	if slackURLFile {
+		g.SlackAPIURLFile = "/run/secrets/slack-url"
+	}
+	slackTok, slackTokFile := val("slack_app_token"), file("slack_app_token")
+	if slackTok {
+		g.SlackAppToken = "xoxb-1"
+	}
+	if slackTokFile {
+		g.SlackAppTokenFile = "/run/secrets/slack-token"
+	}
+	og, ogFile := val("opsgenie_api_key"), file("opsgenie_api_key")
+	if og {
+		g.OpsGenieAPIKey = "k"
+	}
+	if ogFile {
+		g.OpsGenieAPIKeyFile = "/run/secrets/og"
+	}
+	smtp, smtpFile := val("smtp_auth_password"), file("smtp_auth_password")
+	if smtp {
+		g.SMTPAuthPassword = "p"
+	}
+	if smtpFile {
+		g.SMTPAuthPasswordFile = "/run/secrets/smtp"
+	}
+	var more [3][2]bool
+	if vfTier() > 0 {
+		more[0] = [2]bool{val("victorops_api_key"), file("victorops_api_key")}
+		more[1] = [2]bool{val("telegram_bot_token"), file("telegram_bot_token")}
+		more[2] = [2]bool{val("wechat_api_secret"), file("wechat_api_secret")}
+		if more[0][0] {
+			g.VictorOpsAPIKey = "k"
+		}
+		if more[0][1] {
+			g.VictorOpsAPIKeyFile = "/run/secrets/vo"
+		}
+		if more[1][0] {
+			g.TelegramBotToken = "t"
+		}
+		if more[1][1] {
+			g.TelegramBotTokenFile = "/run/secrets/tg"
+		}
+		if more[2][0] {
+			g.WeChatAPISecret = "s"
+		}
+		if more[2][1] {
+			g.WeChatAPISecretFile = "/run/secrets/wc"
+		}
+	}
+	c := &Config{Global: &g, Receivers: []Receiver{{Name: "team-a"}}, Route: &Route{Receiver: "team-a"}}
+	if c.UnmarshalYAML(hNoop17) != nil {
+		vfReach("rejected")
+		return
+	}
+	vfReach("accepted")
+	vfAssert("slack-url-not-both", !(slackURL && slackURLFile))
+	vfAssert("slack-token-not-both", !(slackTok && slackTokFile))
+	vfAssert("opsgenie-not-both", !(og && ogFile))
+	vfAssert("smtp-password-not-both", !(smtp && smtpFile))
+	for _, m := range more {
+		vfAssert("credential-not-both", !(m[0] && m[1]))
+	}
+	// an app token next to a Slack API URL of its own is a contradiction
+	vfAssert("app-token-not-combined-with-another-api-url", !((slackTok || slackTokFile) && (slackURL || slackURLFile)))
+}
